@@ -185,6 +185,61 @@ def run_one(sub: Sub, recipe, acc: _Acc, known: dict, raise_unknown=True):
     return "ok"
 
 
+def json_reduce(recipe, still_fails, max_tests=400):
+    """Generic greedy reducer applied after Hypothesis' shrinker (which has a hard time cap): repeatedly delete one element of any
+    list in the recipe, or replace a list element that is itself a list/dict-bearing statement by one of its list children, as long as
+    `still_fails(candidate)` holds. Recipes are valid by construction for any list lengths the builders accept; a candidate on which the
+    property function raises anything else than the same violation simply does not count as failing."""
+    import copy
+
+    tests = [0]
+
+    def paths(node, prefix=()):
+        if isinstance(node, list):
+            yield prefix
+            for i, x in enumerate(node):
+                yield from paths(x, prefix + (i,))
+        elif isinstance(node, dict):
+            for k, x in node.items():
+                yield from paths(x, prefix + (k,))
+
+    def get(node, path):
+        for k in path:
+            node = node[k]
+        return node
+
+    changed = True
+    while changed and tests[0] < max_tests:
+        changed = False
+        for path in sorted(paths(recipe), key=lambda p: (len(p), str(p))):
+            lst = get(recipe, path)
+            for i in range(len(lst)):
+                cands = []
+                c = copy.deepcopy(recipe)
+                del get(c, path)[i]
+                cands.append(c)
+                if isinstance(lst[i], list):
+                    for child in lst[i]:
+                        if isinstance(child, list) and child and isinstance(child[0], list):
+                            c2 = copy.deepcopy(recipe)
+                            tgt = get(c2, path)
+                            tgt[i:i + 1] = copy.deepcopy(child)
+                            cands.append(c2)
+                for c in cands:
+                    tests[0] += 1
+                    if tests[0] > max_tests:
+                        return recipe
+                    if still_fails(c):
+                        recipe = c
+                        changed = True
+                        break
+                if changed:
+                    break
+            if changed:
+                break
+    return recipe
+
+
 def _shard_hypothesis(mod_name: str, sub_idx: int, n: int, seed: int, tier: str):
     import importlib
 
@@ -223,6 +278,28 @@ def _shard_hypothesis(mod_name: str, sub_idx: int, n: int, seed: int, tier: str)
         if isinstance(e, (KeyboardInterrupt, SystemExit)):
             raise
         err = "".join(traceback.format_exception(type(e), e, e.__traceback__))[-6000:]
+    if acc.violation is not None and err is None:
+        # post-reduction (the Hypothesis shrinker stops after 5 minutes; large thorough-tier finds stay large otherwise)
+        sig0, recipe0, detail0 = acc.violation
+        if len(json.dumps(recipe0, default=str)) > 600:
+            def still_fails(c):
+                try:
+                    sub.prop(c)
+                except Violation as v:
+                    return v.signature == sig0
+                except BaseException:
+                    return False
+                return False
+
+            try:
+                small = json_reduce(recipe0, still_fails)
+                if small is not recipe0:
+                    try:
+                        sub.prop(small)
+                    except Violation as v:
+                        acc.violation = (sig0, small, v.detail)
+            except BaseException:
+                pass
     out = acc.export()
     out["error"] = err
     out["sub"] = sub_idx
